@@ -21,6 +21,7 @@ type Clause struct {
 }
 
 type LoopSpec struct {
+	Assumed    []Clause // assumed at the loop head, never asserted: an explicit, listed assumption
 	Invariants []Clause
 	Decreases  *Clause
 }
@@ -358,6 +359,12 @@ func (cs *ContractSet) parseFile(repo, path string) error {
 				return fail(l, "bad loop ordinal %q", fs[0])
 			}
 			src := strings.TrimSpace(strings.TrimPrefix(strings.TrimSpace(strings.TrimPrefix(rest, fs[0])), fs[1]))
+			if fs[1] == "assumed" {
+				if len(fs) < 4 || fs[2] != "invariant" {
+					return fail(l, "syntax: loop N assumed invariant expr")
+				}
+				src = strings.TrimSpace(strings.TrimPrefix(src, "invariant"))
+			}
 			c, err := mkClause(l, src, nil)
 			if err != nil {
 				return err
@@ -366,6 +373,9 @@ func (cs *ContractSet) parseFile(repo, path string) error {
 				curF.Loops[n] = &LoopSpec{}
 			}
 			switch fs[1] {
+			case "assumed":
+				cs.assumeCount++
+				curF.Loops[n].Assumed = append(curF.Loops[n].Assumed, c)
 			case "invariant":
 				curF.Loops[n].Invariants = append(curF.Loops[n].Invariants, c)
 			case "decreases":
@@ -441,7 +451,7 @@ func (cs *ContractSet) parseFile(repo, path string) error {
 				curF.Options = map[string]bool{}
 			}
 			for _, o := range strings.Fields(rest) {
-				if o != "elemlinks" {
+				if o != "elemlinks" && o != "split" {
 					return fail(l, "unknown option "+o)
 				}
 				curF.Options[o] = true
